@@ -73,14 +73,26 @@ def gen_call(rng, idx):
             ys[i] += 100.0
     lower = float(rng.choice([2, 3, 4, 5, 8]))
     upper = float(rng.choice([2, 3, 4, 5, 8])) if rng.random() < 0.5 else lower
-    t = rng.random()
     opts = {'nord': k}
-    if t < 0.4:
+    ngood = sum(1 for w in ws if w > 0)
+    which = ['bkpt', 'nbkpts', 'bkspace', 'everyn', 'placed'][(idx // 8 + idx) % 5]   # all five breakpoint options
+    if which == 'everyn' and ngood // max(2, ngood // (nseg + 1)) < 2:
+        which = 'nbkpts'
+    if which == 'bkpt':
         opts['bkpt'] = [float(i) for i in range(nseg + 1)]
-    elif t < 0.7:
+    elif which == 'nbkpts':
         opts['nbkpts'] = nseg + 1
-    else:
+    elif which == 'bkspace':
         opts['bkspace'] = 1.0
+    elif which == 'everyn':
+        opts['everyn'] = max(2, ngood // (nseg + 1))          # breakpoints picked from the SORTED good abscissae
+    else:
+        opts['placed'] = [0.0] + [i + rng.choice([0.0, 0.25, -0.25]) for i in range(1, nseg)] + [float(nseg), nseg + 3.0]
+    # one-sided rejection: a limit of exactly zero
+    if idx % 10 == 7:
+        lower, maxiter = 0.0, 0
+    elif idx % 10 == 9:
+        upper, maxiter = 0.0, 0
     perms = [list(range(n))]
     p = list(range(n))
     rng.shuffle(p)
@@ -96,6 +108,41 @@ def gen_call(rng, idx):
             'grid': grid, 'refit': maxiter >= 3, 'outliers': outl, 'zero_weight': zw, 'clear': clear, 'sigma': sigma,
             # outliers that MUST be rejected: >= 20 sigma, not more heavily weighted than the bulk, low leverage
             'must_reject': [i for i, a in zip(outl, amps) if a >= 20 and ws[i] <= 16.0 and n >= 3 * (nseg + k - 1)]}
+
+
+def gen_degenerate(rng, idx):
+    """Inputs on which iterfit gives up early (fewer good points than nord; first fit impossible): judged by the
+    direct checks only -- non-positive inverse variance must still be flagged False, in the caller's order."""
+    k = rng.choice([3, 4, 5])
+    if idx % 2 == 0:
+        ngood = rng.randint(1, k - 1)                       # fewer good points than the order
+        xs = sorted(rng.sample([i / 8.0 for i in range(0, 33)], ngood + rng.randint(1, 3)))
+        ws = [16.0] * len(xs)
+        for i in rng.sample(range(len(xs)), len(xs) - ngood):
+            ws[i] = rng.choice([0.0, -1.0])
+        opts = {'nord': k, 'nbkpts': 2}
+    else:
+        # enough good points but only two distinct good abscissae on a single interval: the first fit returns -2
+        xs = [0.0, 0.0, 0.0, 1.0, 1.0, 1.0][:rng.choice([5, 6])] + [0.5, 0.25][:rng.randint(1, 2)]
+        ws = [4.0] * (len(xs) - 2) + [0.0, 0.0]
+        ws = ws[:len(xs)]
+        for j in range(len(xs)):
+            if xs[j] in (0.5, 0.25):
+                ws[j] = rng.choice([0.0, -1.0])
+            else:
+                ws[j] = 4.0
+        k = rng.choice([3, 4])
+        opts = {'nord': k, 'nbkpts': 2}
+    n = len(xs)
+    ys = [C.dyadic(rng, -2, 2, 4) for _ in xs]
+    perms = [list(range(n))]
+    for _ in range(2):
+        p = list(range(n))
+        rng.shuffle(p)
+        perms.append(p)
+    return {'x': xs, 'y': ys, 'w': ws, 'perms': perms, 'opts': opts, 'maxiter': rng.choice([0, 3]), 'lower': 5.0, 'upper': 5.0,
+            'grid': [0.0, 0.5, 1.0], 'refit': False, 'outliers': [], 'zero_weight': [i for i, w in enumerate(ws) if w <= 0],
+            'clear': False, 'sigma': 0.25, 'must_reject': [], 'direct_only': True}
 
 
 def case_term(c, r):
@@ -119,7 +166,8 @@ def correspond(ctx, proof_ok=True):
         raise RuntimeError('C10/Model.v does not build:\n' + log[-2000:])
     rng = ctx.rng
     ncalls = ctx.n(80, 500)
-    calls = [gen_call(rng, i) for i in range(ncalls)]
+    calls = [gen_call(rng, i) for i in range(ncalls)] + [gen_degenerate(rng, i) for i in range(ctx.n(8, 40))]
+    ncalls = len(calls)
     nb = 8
     outs = C.run_impl_parallel('c10_impl.py', [calls[i::nb] for i in range(nb)])
     results = [None] * ncalls
@@ -146,6 +194,20 @@ def correspond(ctx, proof_ok=True):
         bad = [x for x in runs if 'err' in x]
         if bad:
             viol('C10:iterfit:impl=%s' % bad[0]['err'], 'iterfit raised %s: %s' % (bad[0]['err'], bad[0].get('msg', '')), c, r)
+            continue
+        if c.get('direct_only'):
+            # iterfit gives up early on these inputs; the mask must still honour the weights, in the caller's order
+            stats['early_exit_inputs'] = stats.get('early_exit_inputs', 0) + 1
+            n = len(c['x'])
+            for p, run in zip(c['perms'], runs):
+                m = [None] * n
+                for pos, src in enumerate(p):
+                    m[src] = run['mask'][pos] if pos < len(run['mask']) else None
+                if any(m[j] for j in c['zero_weight']):
+                    viol('C10:iterfit:early-exit:zero-weight-not-flagged',
+                         'iterfit gave up early (%d good points, nord=%d) and returned a mask that flags points with non-positive '
+                         'inverse variance True' % (sum(1 for w in c['w'] if w > 0), c['opts']['nord']), c, r,
+                         extra={'meaning': 'points with non-positive inverse variance are always flagged False'})
             continue
         if any('degenerate' in x for x in runs):
             stats['degenerate'] = stats.get('degenerate', 0) + 1     # <= 1 good point left: outside the quantifier
